@@ -16,6 +16,12 @@ func targetFor(data []byte, mode string) uint64 {
 	if mode == "slow" {
 		return 19683 / ln
 	}
+	if mode == "slower" {
+		return 177147 / ln
+	}
+	if mode == "slowest" {
+		return 1594323 / ln
+	}
 	return 243 / ln * 3 // "either"
 }
 
